@@ -414,10 +414,10 @@ def directive_add_rule(ck, F, rid="C08.R4"):
             ck.bad(rid, "DirectiveSet::add raises max_level exactly when the new directive's level exceeds it", where(add.raw["sp"]), "rows %s" % wrote, fn=add.path)
 
 
-def r5(ck, F):
+def r5(ck, F, rid="C08.R5"):
     E = "tracing_subscriber::filter::env::EnvFilter"
     b = F.body(E + "::enabled")
-    if ck.anchor("C08.R5", "EnvFilter::enabled", b):
+    if ck.anchor(rid, "EnvFilter::enabled", b):
         bad = []
         n_true = 0
         for p in PathEval(b, max_paths=20000).run():
@@ -435,11 +435,11 @@ def r5(ck, F):
                 if not any(t.startswith("ge(arg1.") and ".max_level" in t and v for t, v in guards):
                     bad.append("non-constant result %s without a max_level guard" % show(p.ret)[:60])
         if not bad and n_true:
-            ck.ok("C08.R5", "EnvFilter::enabled: every enabling path is behind `set.max_level >= level`", fn=b.path, detail="%d true-returning paths" % n_true)
+            ck.ok(rid, "EnvFilter::enabled: every enabling path is behind `set.max_level >= level`", fn=b.path, detail="%d true-returning paths" % n_true)
         else:
-            ck.bad("C08.R5", "EnvFilter::enabled: every enabling path is behind `set.max_level >= level`", where(b.raw["sp"]), "unguarded: %s" % bad[:2], fn=b.path)
+            ck.bad(rid, "EnvFilter::enabled: every enabling path is behind `set.max_level >= level`", where(b.raw["sp"]), "unguarded: %s" % bad[:2], fn=b.path)
     h = F.body(E + "::max_level_hint")
-    if ck.anchor("C08.R5", "EnvFilter::max_level_hint", h):
+    if ck.anchor(rid, "EnvFilter::max_level_hint", h):
         rows = {}
         for p in PathEval(h).run():
             if p.end == "return":
@@ -454,12 +454,12 @@ def r5(ck, F):
             all(("max(" in v) for k, v in rows.items() if ("has_value_filters", False) in k) and \
             any(("has_value_filters", True) in k for k in rows)
         if has_trace and has_max and polarity:
-            ck.ok("C08.R5", "EnvFilter::max_level_hint: TRACE with value filters, else max over statics/dynamics", fn=h.path, detail={str(k): v for k, v in rows.items()})
+            ck.ok(rid, "EnvFilter::max_level_hint: TRACE with value filters, else max over statics/dynamics", fn=h.path, detail={str(k): v for k, v in rows.items()})
         else:
-            ck.bad("C08.R5", "EnvFilter::max_level_hint: TRACE with value filters, else max over statics/dynamics", where(h.raw["sp"]), "rows %s" % rows, fn=h.path)
+            ck.bad(rid, "EnvFilter::max_level_hint: TRACE with value filters, else max over statics/dynamics", where(h.raw["sp"]), "rows %s" % rows, fn=h.path)
     rc = F.body(E + "::register_callsite")
     bi = F.body(E + "::base_interest")
-    if ck.anchor("C08.R5", "EnvFilter::register_callsite", rc) and ck.anchor("C08.R5", "EnvFilter::base_interest", bi):
+    if ck.anchor(rid, "EnvFilter::register_callsite", rc) and ck.anchor(rid, "EnvFilter::base_interest", bi):
         rows = {}
         for p in PathEval(bi).run():
             if p.end == "return":
@@ -468,18 +468,18 @@ def r5(ck, F):
         never_rows = [k for k, v in rows.items() if v.startswith("never")]
         cond = [show(c[0]) for p in PathEval(bi).run() for c in p.conds]
         if never_rows and all("has_dynamics" in c for c in cond) and all(k == (False,) for k in never_rows):
-            ck.ok("C08.R5", "EnvFilter: `never` only when there are no dynamic (span-scoped) directives", fn=bi.path, detail={str(k): v for k, v in rows.items()})
+            ck.ok(rid, "EnvFilter: `never` only when there are no dynamic (span-scoped) directives", fn=bi.path, detail={str(k): v for k, v in rows.items()})
         else:
-            ck.bad("C08.R5", "EnvFilter: `never` only when there are no dynamic (span-scoped) directives", where(bi.raw["sp"]), "rows %s on %s" % (rows, set(cond)), fn=bi.path)
+            ck.bad(rid, "EnvFilter: `never` only when there are no dynamic (span-scoped) directives", where(bi.raw["sp"]), "rows %s on %s" % (rows, set(cond)), fn=bi.path)
         always = []
         for p in PathEval(rc, max_paths=20000).run():
             if p.end == "return" and show(p.ret) == "always()":
                 always.append([(show(c[0])[:50], c[1] != 0) for c in p.conds if c[0][0] != "const"])
         ok = always and all(any(("enabled(" in t and v) or ("matcher" in t) or ("discr(" in t and v) for t, v in g) for g in always)
         if ok:
-            ck.ok("C08.R5", "EnvFilter::register_callsite: `always` only after statics.enabled or a stored span matcher", fn=rc.path)
+            ck.ok(rid, "EnvFilter::register_callsite: `always` only after statics.enabled or a stored span matcher", fn=rc.path)
         else:
-            ck.bad("C08.R5", "EnvFilter::register_callsite: `always` only after statics.enabled or a stored span matcher", where(rc.raw["sp"]), "always-paths %s" % always[:2], fn=rc.path)
+            ck.bad(rid, "EnvFilter::register_callsite: `always` only after statics.enabled or a stored span matcher", where(rc.raw["sp"]), "always-paths %s" % always[:2], fn=rc.path)
 
 
 def for_each_fold_table(F, bc):
